@@ -299,6 +299,7 @@ def qa_partition(ctx: Ctx):
     ctx.count("variable_classes", len(uni.rows))
     R = Roles(prog)
     d, s, c = R.dense(), R.sparse(), R.cont_choice()
+    reported = set()
     for last in (False, True):
         flags = {"is_last_period": last}
         ds, df = _sel(uni, d, flags)
@@ -320,6 +321,9 @@ def qa_partition(ctx: Ctx):
                 ctx.ob(f"QA1:disjoint:{na}-{nb}:{tag}", True, prog.where(d),
                        f"{na} and {nb} selections are disjoint on all {len(base)} classes")
             for i in sorted(inter):
+                if (na, nb, i) in reported:
+                    continue
+                reported.add((na, nb, i))
                 ctx.ob(f"QA1:disjoint:{na}-{nb}:{describe(uni, i)}", False, prog.where(s),
                        f"class {describe(uni, i)} is selected both as {na} and as {nb} variable: "
                        "it is passed twice to the mapped function",
